@@ -1,6 +1,6 @@
 #!/usr/bin/env python3
 """Per-property check definitions. Each function returns an exit code."""
-import os, sys, time, json, subprocess
+import os, sys, time, json, subprocess, tempfile
 sys.path.insert(0, os.path.dirname(os.path.abspath(__file__)))
 import orch
 from orch import go_build, run_space, finish, log, MachineryError
@@ -25,6 +25,7 @@ BINARIES = {
     "c20": ("zzverif/cmd/c20", False),
     "cachefile": ("zzverif/cmd/cachefile", False),
     "c10": ("zzverif/cmd/c10", True),
+    "c10nr": ("zzverif/cmd/c10", False),  # the same harness without the race detector (sequential spaces: cache.aging)
     "prod": ("zzverif/cmd/prod", False),
     "pipe": ("vflow", True),
     "pipe15": ("vflow", True),
@@ -34,6 +35,7 @@ BINARIES = {
 # instrumented copies (tools/goinstr) that replace package files in the overlay: name -> [(package dir, [files], rename-main)]
 INSTRUMENT = {
     "c10": [("ipfix", ["memcache.go"], None), ("netflow/v9", ["memcache.go"], None)],
+    "c10nr": [("ipfix", ["memcache.go", "decoder.go"], None), ("netflow/v9", ["memcache.go", "decoder.go"], None)],
     # package main is rewritten completely; the decoder packages only get their sync / sync/atomic imports redirected
     # (none today: a pooled scratch buffer introduced there becomes a deterministic, explorable pool)
     "pipe": [("vflow", ["ipfix.go", "sflow.go", "netflow_v5.go", "netflow_v9.go", "vflow.go", "ipfix_unix.go", "sflow_unix.go"], "vflowMain"),
@@ -109,15 +111,29 @@ FLOW_ASSUME = ["reference encoders/interpretation written from RFC 7011/7012 and
                "private elements (enterprise 29305 / ids 30001-30009) are added to the exported model to reach signed and float32 interpretation"]
 
 
+AGING_RULE = (" cache.aging (the cache and decoder read the clock through the time seam): announce, let T pass, use - T in {0, 1, 59..61, 299..301, 599..601, 1799..1801, 3599..3601, 7200, a day -1/0/+1 s, a week, 30 days, 400 days} "
+              "x 5 orders (data / re-announcement then data / dump, T, load, data / peer lookup / T, dump, load, data) x 6 template versions x IPFIX, NetFlow v9: what is looked up is what was announced, however old.")
+
+
+def aging_space(race=False):
+    tmp = tempfile.mkdtemp(prefix="aging_", dir=orch.BUILD)
+    try:
+        return run_space(build("c10" if race else "c10nr"), "cache.aging", "quick", env={"VERIF_TMP": tmp})
+    finally:
+        import shutil
+        shutil.rmtree(tmp, ignore_errors=True)
+
+
 def flow_records(pid, proto, tier):
     t0 = time.time()
     b = build("flow")
-    names = ["tpl2", "tpl3s", "pad8", "twosets", "allelems", "loaded"]
+    names = ["tpl2", "tpl3s", "pad8", "twosets", "allelems", "loaded", "counts"]
     if tier == "thorough":
         names.append("tpl3")
     res = [run_space(b, proto + "." + n, tier) for n in names]
+    res.append(aging_space())
     return finish(pid, tier, res,
-                  rule="cases are generated from an abstract description: template of 1..3 field kinds over the kind alphabet (one element per abstract type x encoding class: natural, reduced-size, fixed string/octets, variable length with 1- and 3-octet prefixes, enterprise) x scope split 0..n x 1..3 records x padding 0..3 (pad8: 4..7) x 4 value patterns x template in an earlier / the same message; twosets: two templates and two data sets in either order; allelems: every model element as a one-field template in each encoding class; loaded: the same sweep after the model has been replaced through the real ipfix.LoadExtElements from a generated ipfix.elements file (every element, every fifth re-typed, plus the private ones) - decoding must follow the model in force. "
+                  rule="cases are generated from an abstract description: template of 1..3 field kinds over the kind alphabet (one element per abstract type x encoding class: natural, reduced-size, fixed string/octets, variable length with 1- and 3-octet prefixes, enterprise) x scope split 0..n x 1..3 records x padding 0..3 (pad8: 4..7) x 4 value patterns x template in an earlier / the same message; twosets: two templates and two data sets in either order; allelems: every model element as a one-field template in each encoding class; loaded: the same sweep after the model has been replaced through the real ipfix.LoadExtElements from a generated ipfix.elements file (every element, every fifth re-typed, plus the private ones) - decoding must follow the model in force; counts: N records in a set / N fields in a template / N data sets in a message / N templates in one template set / (IPFIX) N records whose variable-length value differs in length from record to record, N in {1..4, 7..9, 15..18, 31..33, 63..65, 100, 127..129, 255..257, 511..513, 1000, 1023..1025, 4000} (thorough: every N up to 1100 and around 2048, 4096) as far as 65000 octets allow." + AGING_RULE + " "
                        "Non-trivial = every executed case (each carries >=1 record); distinct = distinct wire octets (FNV-64 of the message and of the announcing messages).",
                   assumptions=FLOW_ASSUME, t0=t0)
 
@@ -151,10 +167,10 @@ def c08(tier):
 def c09(tier):
     t0 = time.time()
     b = build("flow")
-    res = [run_space(b, "ipfix.perturb", tier), run_space(b, "v9.perturb", tier)]
+    res = [run_space(b, "ipfix.perturb", tier), run_space(b, "v9.perturb", tier), run_space(b, "ipfix.many", tier), run_space(b, "v9.many", tier)]
     return finish("C09", tier, res,
                   rule="5 base messages (2-3 data sets over 4 templates incl. variable-length fields, an options template, and octet-array contents that look like a set header of a known template) x insertion position 0..n x one undecodable set: every reserved id (IPFIX 4..255, v9 2..255), unknown template ids {256,999,65535}, data sets of two templates naming an element absent from the model (scope / non-scope), bodies of 0..9 octets, a body that is itself a valid set, and such inner sets followed by further octets; templates pre-announced or in-message; "
-                       "then every truncation offset 0..len of every base and perturbed message (counter 'truncations'). Quick: every id with 5 bodies and 7 boundary ids with all 13 bodies; thorough: all ids x all bodies. Non-trivial = every case; distinct = wire octets x template placement.",
+                       "then every truncation offset 0..len of every base and perturbed message (counter 'truncations'); many: the same undecodable set (reserved id / unknown template / absent element / empty body / a mixture) inserted N times in a row at every position, N in {2..9, 15..18, 31..33, 63..65, 100, 127..129, 255..257, 1000} (thorough: every N up to 300, 1000, 4000). Quick: every id with 5 bodies and 7 boundary ids with all 13 bodies; thorough: all ids x all bodies. Non-trivial = every case; distinct = wire octets x template placement.",
                   assumptions=FLOW_ASSUME + ["IPFIX set ids 0 and 1 ('not used', RFC 7011 3.3.2) are not counted among the reserved ids",
                                              "the records of the complete datagram used by the truncation oracle are the implementation's own decode of it (differential), its correctness is C03/C06"], t0=t0)
 
@@ -233,11 +249,12 @@ def c18(tier):
     ro = run_space(bp, "opts.filter", tier, env=env)
     ro.viol = [v for v in ro.viol if "cmd-over-file" not in v["sig"]]  # precedence is C17's
     res.append(ro)
+    res.append(run_space(bp, "pipe.c18", tier, env=env, hang_s=240))
     import shutil
     shutil.rmtree(d, ignore_errors=True)
     return finish("C18", tier, res,
-                  rule="every sample sequence of length 0..3 over {flow{raw}, flow{sw}, flow{}, counter{gen}, counter{vg,vlan,proc}, unknown3, unknown4, vendor} x 18 filter lists (incl. numbers that are record formats inside samples: 1001, 1002, 4, 5) ([], [1], [2], [3], [1,2], [2,3], [1,3], [1,2,3], [0], [7], [vendor tag], [2^32-1]); oracle: reference tree without the listed types AND the implementation's own unfiltered decode with exactly the listed types removed. opts.filter: every comma list of length 1..3 over {0,1,2,3,2^32-1,2^32,-1,x,empty} through the real flag parser and the YAML list form through the real option loading. Non-trivial = every case.",
-                  assumptions=SF_ASSUME, t0=t0)
+                  rule="every sample sequence of length 0..3 over {flow{raw}, flow{sw}, flow{}, counter{gen}, counter{vg,vlan,proc}, unknown3, unknown4, vendor} x 18 filter lists (incl. numbers that are record formats inside samples: 1001, 1002, 4, 5) ([], [1], [2], [3], [1,2], [2,3], [1,3], [1,2,3], [0], [7], [vendor tag], [2^32-1]); oracle: reference tree without the listed types AND the implementation's own unfiltered decode with exactly the listed types removed. opts.filter: every comma list of length 1..3 over {0,1,2,3,2^32-1,2^32,-1,x,empty} through the real flag parser and the YAML list form through the real option loading. pipe.c18: the real sFlow receive loop with two workers and three-entry filters under the controlled scheduler (deviation bound 1, thorough 3): the filter list is one slice shared by all workers - published = standalone filtered decode, race detector per schedule. Non-trivial = every case.",
+                  assumptions=SF_ASSUME + PIPE_ASSUME, t0=t0)
 
 
 @check("C05")
@@ -276,10 +293,10 @@ def c20(tier):
 def c04(tier):
     t0 = time.time()
     b = build("flow")
-    res = [run_space(b, "cache.bfs", tier, hang_s=300)]
+    res = [run_space(b, "cache.bfs", tier, hang_s=300), aging_space()]
     return finish("C04", tier, res,
                   rule="explicit-state BFS to closure, IPFIX and NetFlow v9: state = reference map over 6 keys (A/256, A/257, the same IPv4 in 4-byte form, an IPv6 exporter, and two exporters whose addr||id collide under 32-bit FNV-1; thorough adds an IPv6 colliding pair) -> one of 4 definitions (two element lists of equal length and type width, one with the same element but another field length, one with two fields) or none (thorough: 8 keys incl. an IPv6 colliding pair x 3 definitions, and 6 keys x 5 definitions); events per key: announce alone / template then data in one message / data then template in one message / data / peer IRPC.Get / peer-fetched insert; "
-                       "the reference model is searched on its own to enumerate every state with a shortest history (announcing event kinds rotate); each state is a case: successor = replay of that history on a fresh real cache + the event; after every transition every key is probed with a data message (decoded under exactly ref[k], or 'unknown template' with no records) and the canonical cache content must be a function of the reference state. Non-trivial = every reference state; distinct by state.",
+                       "the reference model is searched on its own to enumerate every state with a shortest history (announcing event kinds rotate); each state is a case: successor = replay of that history on a fresh real cache + the event; after every transition every key is probed with a data message (decoded under exactly ref[k], or 'unknown template' with no records) and the canonical cache content must be a function of the reference state. Non-trivial = every reference state; distinct by state." + AGING_RULE,
                   assumptions=["states are merged on the reference map; the implementation's canonical cache content (read from the exported structure, timestamps dropped) is checked to be a function of it, which is what makes the merge sound",
                                "the FNV-colliding exporter pairs were found offline by a birthday search and are recomputed with hash/fnv at start-up",
                                "peer-fetched insert uses the cache's private insert through a verif-tagged export file injected by the overlay"], t0=t0)
@@ -354,10 +371,11 @@ def c11(tier):
             res.append(r)
     import shutil
     shutil.rmtree(tmp, ignore_errors=True)
+    res.append(aging_space())
     return finish("C11", tier, res,
-                  rule="per protocol: roundtrip: 6 (thorough 40) cache contents reached by decoding announcements (0..240 templates; plain/options/enterprise/variable-length; IPv4-mapped, 4-byte and IPv6 exporters) dumped, loaded, every key probed with a well-formed data message and compared with the live cache, second generation identical; "
+                  rule="per protocol: roundtrip: 6 (thorough 40) cache contents reached by decoding announcements (0..240 templates; plain/options/enterprise/variable-length; IPv4-mapped, 4-byte and IPv6 exporters) dumped, loaded, every key probed with a well-formed data message and compared with the live cache, second generation identical; the same content saved by ANOTHER process and loaded by this one (a restart is never the same process); a smaller cache saved over a longer file; "
                        "crash: every image the observed write history of Dump can leave (old file, empty, EVERY byte prefix, prefixes zero-filled to 512/4096-octet boundaries and to full length, complete) - loaded cache must be a subset of the saved one and usable; "
-                       "bytes: every position x 13 substitution octets, every single-octet deletion and duplication; struct: 28 Cache shapes x 11 ShardNo forms x 2 key orders + absent/empty/directory/non-JSON files. Usable = announce+data succeeds for 96 probe exporters; after every crash image and every byte corruption the loaded entries are also USED: data for every exporter/template of the saved content is decoded (the decoder must cope with whatever the altered file made of them). Non-trivial = every case; distinct = file octets.",
+                       "bytes: every position x 13 substitution octets, every single-octet deletion and duplication; struct: 28 Cache shapes x 11 ShardNo forms x 2 key orders + absent/empty/directory/non-JSON files. Usable = announce+data succeeds for 96 probe exporters;" + AGING_RULE + " after every crash image and every byte corruption the loaded entries are also USED: data for every exporter/template of the saved content is decoded (the decoder must cope with whatever the altered file made of them). Non-trivial = every case; distinct = file octets.",
                   assumptions=["write history of Dump: " + models["ipfix"]["source"],
                                "crash model: a crash leaves a byte prefix of an unsynced write, possibly with zero-filled blocks; no reordering across files",
                                "for byte/structure corruptions only 'never crashes' and 'usable' are demanded (a corrupted but valid document has no saved cache to be a subset of)",
@@ -384,13 +402,14 @@ def c10(tier):
     b = build("c10")
     d, env = sched_env("c10")
     res = [run_space(b, "cache.sched", tier, env=env, hang_s=120)]
+    res.append(run_space(b, "cache.aging", tier, env=env))
     import shutil
     shutil.rmtree(d, ignore_errors=True)
     r = res[0]
     return finish("C10", tier, res,
-                  rule="36 scenarios (11 three-thread combinations x {empty cache, template pre-announced}, IPFIX and NetFlow v9 where applicable) of: decoder announcing v1 then v2 for key k, decoder sending data for k twice, decoder announcing for another exporter in the same / another shard, second announcer, Dump + load back, peer IRPC.Get x2, peer-fetched insert; "
+                  rule="56 scenarios (18 three-thread combinations x {empty cache, template pre-announced}, IPFIX and NetFlow v9 where applicable) of: decoder announcing v1 then v2 for key k, decoder sending data for k twice, decoder announcing for another exporter in the same shard (a key that is text-ambiguous with k) / another shard, second announcer, Dump + load back, peer IRPC.Get x2, peer-fetched insert, one message announcing two templates in one set, threads that first let a virtual second pass (entries older than 'now'), a template with a variable-length field; "
                        "all schedules with at most 3 (thorough 4) deviations from the default scheduler, depth-first. Per execution: no panic, no race report, call/return history linearizable w.r.t. a per-key register (brute force over all orders consistent with real time), every lookup returns none or a complete announced template of that key, every dump loads back as complete announced templates. "
-                       "states = executions (complete schedules), transitions = scheduling steps; non-trivial = distinct observation logs per scenario.",
+                       "states = executions (complete schedules), transitions = scheduling steps; non-trivial = distinct observation logs per scenario." + AGING_RULE,
                   assumptions=SCHED_ASSUME + ["3 threads, <=2 operations each; template versions have equal record length and different field lists so the version used is visible"],
                   extra_cov={"executions": r.extra.get("executions", 0), "distinct_observation_logs": r.extra.get("distinct_observation_logs", 0), "deviation_bound": 4 if tier == "thorough" else 3}, t0=t0)
 
@@ -544,7 +563,7 @@ def c15(tier):
     return finish("C15", tier, res,
                   rule="per pipeline: the real run()/workers/shutdown() under main()'s orchestration (replicated: start, wait for the signal, shutdown, wait) in scenarios idle / data before the signal / data around the signal (queue capacity 1000 and 1) / template burst around the signal, two stop-start cycles each; every schedule within the deviation bound, where a deviation is also a timer firing while other threads are still runnable (a thread descheduled for a second). "
                        "Second space (template cache lock operations are scheduling points too): a template datagram the receive loop has read (counted) right before the signal, deviation bound 2 — the dump against a worker that has taken the datagram off the queue but not stored the template yet. "
-                       "Oracle: no panic (send on / close of closed channel, nil dereference), no deadlock, main returns within 3 virtual seconds of the signal, no race report, the cache file left behind loads and holds the template processed before the signal and every template whose datagram had been received (counted) before the signal unless runnable threads were held up for a second or more in total (early timer firings), after the restart data for it is published at once. "
+                       "a start between the two cycles that gets the signal AT ONCE (as soon as main has installed its handler: no listener yet, no traffic, no look at the counters), and a restart after two hours (thorough: 400 days) of downtime. Oracle: no panic (send on / close of closed channel, nil dereference), no deadlock, main returns within 10 virtual seconds of the signal, no race report, the cache file left behind loads and holds the template processed before the signal and every template whose datagram had been received (counted) before the signal unless runnable threads were held up for a second or more in total (early timer firings), after the restart data for it is published at once. "
                        "Trace validation: %d runs of the shipped binary (real signals SIGTERM/SIGINT, loopback traffic incl. a flood during the signal, TCP sink behind the rawSocket producer, restart on the same cache files)." % nruns,
                   assumptions=PIPE_ASSUME + ["main()'s 20 lines of orchestration are replicated next to the real run()/shutdown() because GetOptions (flag registration, PID file, kill -0) cannot be re-run per execution",
                                              "virtual clock: time advances when every thread is blocked; in addition a timer may fire early at the cost of one deviation",
@@ -660,13 +679,14 @@ def c14(tier):
     b = build("prod")
     d, env = sched_env("c14")
     env.pop("GORACE", None)
-    res = [run_space(b, "prod.tcp", tier, env=env, hang_s=90), run_space(b, "prod.udp", tier, env=env, hang_s=90)]
+    res = [run_space(b, "prod.tcp", tier, env=env, hang_s=90), run_space(b, "prod.udp", tier, env=env, hang_s=90), run_space(b, "prod.burst", tier, env=env, hang_s=90)]
     import shutil
     shutil.rmtree(d, ignore_errors=True)
     return finish("C14", tier, res,
                   rule="prod.tcp: the real Producer.Run -> RawSocket.setup (real YAML config: tcp, retry-max 0/1/2) -> inputMsg against a real loopback TCP sink; 6 messages handed over through an unbuffered channel (a completed hand-over means the previous message is finished); before each of messages 2..6 one action from {none, sink closes (FIN), sink resets (RST, SO_LINGER 0), sink listener down + reset, listener up}: every action sequence with at most 2 (thorough 3) faults; "
                        "3 message sets (plain JSON; per-cent sequences 100% %d %s %% %; empty / 5 KB / 70 KB messages). Faults are injected while the producer is blocked on its input channel and are followed by a TCP_INFO barrier on the producer's own socket (no sleeps). "
                        "Oracle: per sink connection the lines (split at newline; an unterminated tail of a dead connection is not a message) form an in-order, duplicate-free, byte-identical subsequence of the messages; losses <= messages handed over while the sink was down + 2 per fault; error counter 0 without faults; Run returns when the channel is closed. "
+                       "prod.burst: buffered channel as in the collector, bursts of 1..3 messages while the sink is up / while it is away (listener down + RST) / after it is back x retry-max 0/1/2 x plain and shared-buffer messages; state barrier 'queue empty and producer parked in its receive' between the phases; what the sink got must be an in-order, duplicate-free, byte-identical subsequence containing the whole first burst, and the producer must come to rest. "
                        "prod.udp: udp configuration, sink up/down per message (all 32 masks) x retry-max x message sets; every datagram is exactly the next message + newline. states = fault sequences executed, transitions = messages handed over.",
                   assumptions=["the environment is the real Linux loopback TCP/UDP stack, not a model: every explored fault sequence is a real kernel trace",
                                "only producer.go + rawSocket.go are decided; the Kafka (sarama, segmentio), NSQ and NATS drivers need a broker and cannot be exercised offline",
